@@ -292,11 +292,148 @@ theorem visible_flags_and_old (ds : Datasource) (c : Change) (as : List Action)
       rw [hk.2.2.1]; exact this
     · cases hi
 
+/-- the same for either value of the ignore option: an action of the modify (delete) block is a modify (delete)
+    paired with the greatest history version below its own — or, only with the option set, a visible create for an
+    element whose history or earlier version is missing -/
+theorem block_actions (ds : Datasource) (ig : Bool) (c : Change) (as : List Action)
+    (h : annotateChange ds ig c = .ok as) :
+    ∃ m d, as = c.create.all.map createAction ++ m ++ d ∧
+      (∀ a ∈ m, (a.type = .modify ∧ a.new.visible = true ∧ ∃ hist o, ds a.new.kind a.new.id = .found hist ∧
+          a.old = some o ∧ o ∈ hist ∧ o.version < a.new.version ∧ ∀ e ∈ hist, e.version < a.new.version → e.version ≤ o.version)
+        ∨ (ig = true ∧ a.type = .create ∧ a.old = none ∧ a.new.visible = true)) ∧
+      (∀ a ∈ d, (a.type = .delete ∧ a.new.visible = false ∧ ∃ hist o, ds a.new.kind a.new.id = .found hist ∧
+          a.old = some o ∧ o ∈ hist ∧ o.version < a.new.version ∧ ∀ e ∈ hist, e.version < a.new.version → e.version ≤ o.version)
+        ∨ (ig = true ∧ a.type = .create ∧ a.old = none ∧ a.new.visible = true)) := by
+  obtain ⟨m, d, hm, hd, rfl⟩ := annotate_split ds ig c as h
+  refine ⟨m, d, rfl, ?_, ?_⟩
+  · intro a ha
+    obtain ⟨e, _, hu⟩ := addUpdate_mem _ _ _ _ _ hm a ha
+    obtain ⟨hk, hcase⟩ := updateOne_ok _ _ _ _ _ hu
+    rcases hcase with ⟨ht, hv, hist, o, hds, hp, ho⟩ | ⟨hi, ht, ho, hv, _⟩
+    · left
+      have := previous_is_greatest_below _ _ _ hp
+      refine ⟨ht, by simpa using hv, hist, o, by rw [hk.1, hk.2.1]; exact hds, ho, ?_⟩
+      rw [hk.2.2.1]; exact this
+    · exact Or.inr ⟨hi, ht, ho, hv⟩
+  · intro a ha
+    obtain ⟨e, _, hu⟩ := addUpdate_mem _ _ _ _ _ hd a ha
+    obtain ⟨hk, hcase⟩ := updateOne_ok _ _ _ _ _ hu
+    rcases hcase with ⟨ht, hv, hist, o, hds, hp, ho⟩ | ⟨hi, ht, ho, hv, _⟩
+    · left
+      have := previous_is_greatest_below _ _ _ hp
+      refine ⟨ht, by simpa using hv, hist, o, by rw [hk.1, hk.2.1]; exact hds, ho, ?_⟩
+      rw [hk.2.2.1]; exact this
+    · exact Or.inr ⟨hi, ht, ho, hv⟩
+
+/-! ## errors at the level of the whole change -/
+
+/-- the error one element of a modify/delete block raises, if any (it does not depend on the block) -/
+def updateErr (ds : Datasource) (ig : Bool) (e : Elem) : Option Err :=
+  match ds e.kind e.id with
+  | .otherErr => some .other
+  | .notFound => if ig then none else some (.noVisibleChild e.kind e.id)
+  | .found h =>
+    match findPrevious e.version h with
+    | none => if ig then none else some (.noVisibleChild e.kind e.id)
+    | some _ => none
+
+theorem updateOne_error_iff (ds : Datasource) (ig : Bool) (t : ActType) (e : Elem) :
+    (∀ err, updateOne ds ig t e = .error err ↔ updateErr ds ig e = some err) ∧
+    ((∃ a, updateOne ds ig t e = .ok a) ↔ updateErr ds ig e = none) := by
+  unfold updateOne updateErr
+  cases ds e.kind e.id with
+  | otherErr => simp
+  | notFound => cases ig <;> simp
+  | found h =>
+    simp only
+    cases findPrevious e.version h with
+    | none => cases ig <;> simp
+    | some o => simp
+
+theorem addUpdate_error (ds : Datasource) (ig : Bool) (t : ActType) (l : List Elem) :
+    (∀ err, addUpdate ds ig t l = .error err ↔ (l.filterMap (updateErr ds ig)).head? = some err) ∧
+    ((∃ as, addUpdate ds ig t l = .ok as) ↔ l.filterMap (updateErr ds ig) = []) := by
+  induction l with
+  | nil => simp [addUpdate]
+  | cons e rest ih =>
+    obtain ⟨h1, h2⟩ := updateOne_error_iff ds ig t e
+    simp only [addUpdate, bind, Except.bind, List.filterMap_cons]
+    cases hu : updateOne ds ig t e with
+    | error err0 =>
+      have he := (h1 err0).mp hu
+      simp only [he, List.head?_cons, Option.some.injEq]
+      constructor
+      · intro err; constructor
+        · intro h; cases h; rfl
+        · intro h; rw [h]
+      · simp
+    | ok a =>
+      have he := h2.mp ⟨a, hu⟩
+      simp only [he]
+      cases hr : addUpdate ds ig t rest with
+      | error err1 =>
+        constructor
+        · intro err
+          rw [← ih.1 err, hr]
+        · have : ¬ ∃ as, addUpdate ds ig t rest = .ok as := by rw [hr]; simp
+          rw [ih.2] at this
+          simp [this]
+      | ok as' =>
+        have hnil := ih.2.mp ⟨as', hr⟩
+        simp [pure, Except.pure, hnil]
+
+/-- **the change as a whole**: annotation succeeds exactly when no element of the modify and delete blocks raises an
+    error, and otherwise reports the error of the first such element — modify block before delete block, and
+    node, way, relation order within each (`NoVisibleChildError` for a missing history or missing earlier version
+    without the ignore option, the datasource's own error otherwise) -/
+theorem change_error (ds : Datasource) (ig : Bool) (c : Change) :
+    (∀ err, annotateChange ds ig c = .error err ↔
+      ((c.modify.all ++ c.delete.all).filterMap (updateErr ds ig)).head? = some err) ∧
+    ((∃ as, annotateChange ds ig c = .ok as) ↔ (c.modify.all ++ c.delete.all).filterMap (updateErr ds ig) = []) := by
+  obtain ⟨m1, m2⟩ := addUpdate_error ds ig .modify c.modify.all
+  obtain ⟨d1, d2⟩ := addUpdate_error ds ig .delete c.delete.all
+  simp only [annotateChange, bind, Except.bind, List.filterMap_append]
+  cases hm : addUpdate ds ig .modify c.modify.all with
+  | error e0 =>
+    have := (m1 e0).mp hm
+    have hne : List.filterMap (updateErr ds ig) c.modify.all ≠ [] := by intro e; rw [e] at this; cases this
+    have hhead : ∀ l2 : List Err, (List.filterMap (updateErr ds ig) c.modify.all ++ l2).head? =
+        (List.filterMap (updateErr ds ig) c.modify.all).head? := by
+      intro l2
+      cases hl : List.filterMap (updateErr ds ig) c.modify.all with
+      | nil => exact absurd hl hne
+      | cons x xs => rfl
+    constructor
+    · intro err
+      rw [hhead, ← m1 err, hm]
+    · simp [hne]
+  | ok m =>
+    have hnil := m2.mp ⟨m, hm⟩
+    simp only [hnil, List.nil_append]
+    cases hd : addUpdate ds ig .delete c.delete.all with
+    | error e1 =>
+      constructor
+      · intro err; rw [← d1 err, hd]
+      · have : ¬ ∃ as, addUpdate ds ig .delete c.delete.all = .ok as := by rw [hd]; simp
+        rw [d2] at this
+        simp [this]
+    | ok d =>
+      have := d2.mp ⟨d, hd⟩
+      simp [pure, Except.pure, this]
+
 /-! ## non-vacuity -/
 def exDs : Datasource := fun k id =>
   if k = .node ∧ id = 5 then .found [⟨.node, 5, 3, 0, true⟩, ⟨.node, 5, 1, 1, true⟩, ⟨.node, 5, 7, 2, true⟩, ⟨.node, 5, 2, 3, true⟩]
   else .notFound
 example : findPrevious 4 [⟨.node, 5, 3, 0, true⟩, ⟨.node, 5, 1, 1, true⟩, ⟨.node, 5, 7, 2, true⟩] = some ⟨.node, 5, 3, 0, true⟩ := by decide
 example : (annotateChange exDs false ⟨⟨[], [], []⟩, ⟨[⟨.node, 5, 4, 9, false⟩], [], []⟩, ⟨[], [], []⟩⟩).toOption.isSome = true := by decide
+
+/-- with the option: the element without history becomes a visible create; without it: the typed error of that element -/
+example : (match annotateChange exDs true ⟨⟨[], [], []⟩, ⟨[⟨.node, 5, 4, 9, false⟩], [⟨.way, 8, 2, 1, false⟩], []⟩, ⟨[], [], []⟩⟩ with
+    | .ok as => as.map (fun a => (a.type, a.new.id, a.new.visible, a.old.map (·.version)))
+    | .error _ => []) = [(.modify, 5, true, some 3), (.create, 8, true, none)] := by decide
+example : (match annotateChange exDs false ⟨⟨[], [], []⟩, ⟨[⟨.node, 5, 4, 9, false⟩], [⟨.way, 8, 2, 1, false⟩], []⟩, ⟨[⟨.node, 6, 2, 0, false⟩], [], []⟩⟩ with
+    | .error (.noVisibleChild k id) => some (k, id)
+    | _ => none) = some (.way, 8) := by decide
 
 end OsmVerif.Props.C13
